@@ -169,6 +169,38 @@ def run(ctx: core.Ctx):
                         ctx.violation("General.activate/rejects-batch", {"batch": m}, "no exception", "ValueError")
                 except Exception as ex:
                     ctx.violation(f"{cls}.activate/batch-raises-{type(ex).__name__}", {"method": cls, "batch": m}, "ValueError", f"{type(ex).__name__}: {ex}")
+    # a batch of length one: a method may refuse it like any batch, but if it accepts it the result is the scalar one
+    nb1 = 0
+    for g in gens:
+        for ci, c in enumerate(g.emitted):
+            if ci % 97 or not all(c["ld"]) or c["act"]["cls"] == "General":
+                continue
+            e = engines[c["k"]]
+            try:
+                scalar_obs = apply_case(fl, e, c)
+            except Exception:
+                continue
+            rb = e.rule_blocks[0]
+            for iv, d in zip(e.input_variables, c["degs"]):
+                iv.value = np.array([to_float(d)])
+            e.output_variables[0].fuzzy.clear()
+            ctx.count()
+            nb1 += 1
+            try:
+                rb.activate()
+            except ValueError:
+                continue            # refused: allowed
+            except Exception as ex:
+                ctx.violation(f"{c['act']['cls']}.activate/batch-of-one-raises-{type(ex).__name__}", {"case": c}, "ValueError or the scalar result", f"{type(ex).__name__}: {ex}")
+                continue
+            out = e.output_variables[0]
+            obs = {"deg": [float(np.asarray(r.activation_degree).reshape(-1)[0]) for r in rb.rules], "trig": [bool(np.all(r.triggered)) for r in rb.rules],
+                   "fuzzy": [(a.term.name, float(np.asarray(a.degree).reshape(-1)[0])) for a in out.fuzzy.terms]}
+            if obs["trig"] != scalar_obs["trig"] or [n for n, _ in obs["fuzzy"]] != [n for n, _ in scalar_obs["fuzzy"]] \
+                    or not all(feq(a, b) for (_, a), (_, b) in zip(obs["fuzzy"], scalar_obs["fuzzy"])) or not all(feq(a, b) for a, b in zip(obs["deg"], scalar_obs["deg"])):
+                ctx.violation(f"{c['act']['cls']}.activate/batch-of-one-differs", {"case": c}, scalar_obs, obs,
+                              note="a batch of length one was accepted but does not give what the same degrees give as scalars")
+    ctx.extra["batches_of_one"] = nb1
     ctx.exhaustive = True
     ctx.rule = (f"TLC enumerates blocks of 1..3 rules (model check to {3 if q else 4}) x all degree vectors over 5 values (NaN too for <= 2 rules) x "
                 "{all on, one disabled, one unloaded} x 7 methods with all parameter values; each case is replayed on one long-lived rule block; "
